@@ -4,7 +4,13 @@ import (
 	"bytes"
 	"fmt"
 	"reflect"
+	"strings"
 	"time"
+
+	"github.com/aptpod/iscp-go/encoding/convert"
+	"github.com/aptpod/iscp-go/transport"
+	"github.com/gogo/protobuf/jsonpb"
+	"github.com/gogo/protobuf/proto"
 
 	"github.com/aptpod/iscp-go/encoding"
 	iscperrors "github.com/aptpod/iscp-go/errors"
@@ -85,7 +91,19 @@ func runC12(s *Sim) {
 			return
 		}
 		m2, err := l.decode(b2)
-		if err != nil || !reflect.DeepEqual(m, m2) {
+		if err != nil {
+			s.Violate("C12.not-self-consistent", fmt.Sprintf("%T", m), "%s: decoded %T re-encodes to bytes the decoder rejects: %v", what, m, err)
+			return
+		}
+		// equality up to the canonical form (absent collection == empty collection): the canonical
+		// form itself must be a fixed point
+		b3, err := l.encode(m2)
+		if err != nil {
+			s.Violate("C12.decoded-not-encodable", fmt.Sprintf("%T", m2), "%s: canonical form of %T cannot be encoded: %v", what, m2, err)
+			return
+		}
+		m3, err := l.decode(b3)
+		if err != nil || !reflect.DeepEqual(m2, m3) || fmt.Sprintf("%T", m) != fmt.Sprintf("%T", m2) {
 			s.Violate("C12.not-self-consistent", fmt.Sprintf("%T", m), "%s: decoded %T does not survive encode/decode (err=%v)", what, m, err)
 		}
 	}
@@ -114,7 +132,7 @@ func runC12(s *Sim) {
 				acts = append(acts, Action{Name: "hostile", W: 4, Do: func() {
 					hostileLeft--
 					s.Nontrivial()
-					kind := Pick(t, "hostile-kind", "wrong-type", "bitflip", "truncate", "random", "splice", "wrong-type", "inflate")
+					kind := Pick(t, "hostile-kind", "wrong-type", "bitflip", "truncate", "random", "splice", "structural", "inflate", "structural", "misaddressed")
 					s.Stat("fault.corrupt-" + kind)
 					// base frame: the next pending reply if any, else a fresh pong-like frame
 					var base []byte
@@ -138,6 +156,26 @@ func runC12(s *Sim) {
 					}
 					var out []byte
 					switch kind {
+					case "structural":
+						var pingID uint32
+						if c := l.bc; c != nil && len(c.Pings) > 0 {
+							pingID = c.Pings[len(c.Pings)-1].ID
+						}
+						if haveReq {
+							pingID = reqID
+						}
+						var what string
+						out, what = structuralHostile(s, l, c.up.B.aliasOn[l.ID], c.dn.B.Alias, pingID)
+						s.Logf("hostile: structural %s", what)
+						if out == nil {
+							out = []byte{}
+						}
+					case "misaddressed":
+						// well-formed stream messages for addresses nobody owns
+						spontaneousMisaddressed(s, l, c.dn.B.Alias, t.Choose("spont-kind", 5))
+						l.DeliverAll()
+						s.Logf("hostile: misaddressed stream message")
+						return
 					case "wrong-type":
 						if !haveReq {
 							// an outstanding ping id if there is one
@@ -235,6 +273,23 @@ func runC12(s *Sim) {
 		y.PumpUntil(func() bool { return op.harvested }, time.Second, 25*time.Second)
 		if !op.harvested || op.Err != nil {
 			s.Violate("C12.session-unusable", errClass(op.Err), "40 s after the last hostile frame (broker healthy, redial possible) SendMetadata with a 20 s deadline: returned=%v err=%s", op.harvested, errString(op.Err))
+		} else {
+			// a downstream can still be opened and closed (nothing left a lock behind)
+			od := c.mkOp("OpenDownstream")
+			od.CtxKind, od.Timeout = "deadline", 20*time.Second
+			s.Start(3, od)
+			y.PumpUntil(func() bool { return od.harvested }, time.Second, 25*time.Second)
+			if !od.harvested {
+				s.Violate("C12.hangs-after-hostile-frame", "OpenDownstream", "after hostile frames OpenDownstream with a 20 s deadline never returns although the broker answers")
+			} else if h, ok := od.Meta.(*downH); ok && h.D != nil {
+				cl := y.closeDownOp(h)
+				cl.CtxKind, cl.Timeout = "deadline", 20*time.Second
+				s.Start(3, cl)
+				y.PumpUntil(func() bool { return cl.harvested }, time.Second, 25*time.Second)
+				if !cl.harvested {
+					s.Violate("C12.hangs-after-hostile-frame", "Downstream.Close", "after hostile frames Downstream.Close with a 20 s deadline never returns although the broker answers")
+				}
+			}
 		}
 	}
 	// oversize gate of the encoding transport
@@ -309,3 +364,143 @@ func (o *oneShot) Write([]byte) error          { return nil }
 func (o *oneShot) Close() error                { return nil }
 func (o *oneShot) RxBytesCounterValue() uint64 { return 0 }
 func (o *oneShot) TxBytesCounterValue() uint64 { return 0 }
+
+// ---------------------------------------------------------------------------
+// structure-aware hostile frames: a valid broker->client message is converted to its
+// wire-schema form, one randomly chosen field is damaged (absent oneof / sub-message,
+// wrong-length uuid or byte field, unknown enum number, emptied or duplicated list, extreme
+// integer), and the result is encoded with the link's encoding.
+
+func structuralHostile(s *Sim, l *Link, upAlias, downAlias uint32, outstanding uint32) ([]byte, string) {
+	t := s.T
+	info := message.UpstreamInfo{SessionID: "s", SourceNodeID: "node-1", StreamID: mkUUID(0xE0, 1)}
+	id := message.DataID{Name: "n", Type: "t"}
+	var base message.Message
+	switch t.Choose("sh-type", 11) {
+	case 10:
+		// an empty chunk (no groups) is legal; its damaged variants are the interesting ones
+		base = &message.DownstreamChunk{StreamIDAlias: downAlias, UpstreamOrAlias: &info, StreamChunk: &message.StreamChunk{SequenceNumber: 2}}
+	case 0, 1, 2:
+		base = &message.DownstreamChunk{StreamIDAlias: downAlias, UpstreamOrAlias: &info, StreamChunk: &message.StreamChunk{SequenceNumber: 1,
+			DataPointGroups: []*message.DataPointGroup{{DataIDOrAlias: &id, DataPoints: []*message.DataPoint{{ElapsedTime: time.Second, Payload: []byte("p")}}}}}}
+	case 3:
+		base = &message.UpstreamChunkAck{StreamIDAlias: upAlias, Results: []*message.UpstreamChunkResult{{SequenceNumber: 1, ResultCode: message.ResultCodeSucceeded, ResultString: "ok"}},
+			DataIDAliases: map[uint32]*message.DataID{7: &id}}
+	case 4:
+		base = &message.DownstreamMetadata{RequestID: 91, StreamIDAlias: downAlias, SourceNodeID: "node-1", Metadata: &message.BaseTime{Name: "b", BaseTime: time.Unix(1_700_000_000, 0).UTC()}}
+	case 5:
+		base = &message.UpstreamOpenResponse{RequestID: message.RequestID(outstanding), AssignedStreamID: mkUUID(0xCC, 3), AssignedStreamIDAlias: 9, ResultCode: message.ResultCodeSucceeded, DataIDAliases: map[uint32]*message.DataID{1: &id}}
+	case 6:
+		base = &message.DownstreamOpenResponse{RequestID: message.RequestID(outstanding), AssignedStreamID: mkUUID(0xCC, 4), ResultCode: message.ResultCodeSucceeded}
+	case 7:
+		base = &message.DownstreamCall{CallID: "c", RequestCallID: "r", SourceNodeID: "n", Name: "x", Type: "t", Payload: []byte("p")}
+	case 8:
+		base = &message.DownstreamChunkAckComplete{StreamIDAlias: downAlias, AckID: 1, ResultCode: message.ResultCodeSucceeded}
+	default:
+		base = &message.DownstreamMetadata{RequestID: 93, StreamIDAlias: downAlias, SourceNodeID: "node-2", Metadata: &message.UpstreamOpen{StreamID: mkUUID(0xCC, 5), SessionID: "s", QoS: message.QoSReliable}}
+	}
+	pb, err := convert.WireToProto(base)
+	if err != nil {
+		return nil, ""
+	}
+	what := damage(t, reflect.ValueOf(pb), 0)
+	for k := t.Choose("dmg-more", 3); k > 0; k-- { // up to three damaged fields
+		what += "+" + damage(t, reflect.ValueOf(pb), 0)
+	}
+	var out []byte
+	if l.cfg.EncodingName == transport.EncodingNameJSON {
+		var buf bytes.Buffer
+		m := jsonpb.Marshaler{}
+		if err := m.Marshal(&buf, pb); err != nil {
+			return nil, ""
+		}
+		out = buf.Bytes()
+	} else {
+		out, err = proto.Marshal(pb)
+		if err != nil {
+			return nil, ""
+		}
+	}
+	return out, fmt.Sprintf("%T:%s", base, what)
+}
+
+// damage walks into v and damages one field; it returns a description.
+func damage(t *Tape, v reflect.Value, depth int) string {
+	for v.Kind() == reflect.Ptr || v.Kind() == reflect.Interface {
+		if v.IsNil() {
+			return "nil"
+		}
+		v = v.Elem()
+	}
+	if v.Kind() != reflect.Struct {
+		return "leaf"
+	}
+	var cands []int
+	for i := 0; i < v.NumField(); i++ {
+		f := v.Field(i)
+		if !f.CanSet() || strings.HasPrefix(v.Type().Field(i).Name, "XXX_") {
+			continue
+		}
+		cands = append(cands, i)
+	}
+	if len(cands) == 0 {
+		return "empty"
+	}
+	i := cands[t.Choose("dmg-field", len(cands))]
+	f := v.Field(i)
+	name := v.Type().Field(i).Name
+	switch f.Kind() {
+	case reflect.Ptr, reflect.Interface:
+		if f.IsNil() || depth > 4 || t.Bool("dmg-nil", 1, 2) {
+			f.Set(reflect.Zero(f.Type()))
+			return name + "=absent"
+		}
+		return name + "." + damage(t, f, depth+1)
+	case reflect.Slice:
+		if f.Type().Elem().Kind() == reflect.Uint8 {
+			switch t.Choose("dmg-bytes", 3) {
+			case 0:
+				f.SetBytes(nil)
+				return name + "=empty-bytes"
+			case 1:
+				b := f.Bytes()
+				if len(b) > 1 {
+					f.SetBytes(b[:len(b)/2])
+				} else {
+					f.SetBytes([]byte{1, 2, 3})
+				}
+				return name + "=wrong-length"
+			default:
+				f.SetBytes(append(append([]byte(nil), f.Bytes()...), 1, 2, 3, 4, 5))
+				return name + "=too-long"
+			}
+		}
+		if f.Len() > 0 && t.Bool("dmg-into-slice", 1, 2) {
+			return name + "[0]." + damage(t, f.Index(0), depth+1)
+		}
+		if f.Len() > 0 && t.Bool("dmg-dup", 1, 2) {
+			f.Set(reflect.Append(f, f.Index(0)))
+			return name + "=duplicated-element"
+		}
+		f.Set(reflect.Zero(f.Type()))
+		return name + "=empty-list"
+	case reflect.Map:
+		f.Set(reflect.Zero(f.Type()))
+		return name + "=empty-map"
+	case reflect.Int32, reflect.Int64, reflect.Int:
+		f.SetInt(Pick(t, "dmg-int", int64(9999), -1, 1<<31-1, 0))
+		return name + "=odd-number"
+	case reflect.Uint32, reflect.Uint64:
+		f.SetUint(Pick(t, "dmg-uint", uint64(0), 1<<32-1, 424242))
+		return name + "=odd-number"
+	case reflect.String:
+		f.SetString(Pick(t, "dmg-str", "", "\xff\xfe", strings.Repeat("z", 300)))
+		return name + "=odd-string"
+	case reflect.Bool:
+		f.SetBool(!f.Bool())
+		return name + "=flipped"
+	case reflect.Struct:
+		return name + "." + damage(t, f.Addr(), depth+1)
+	}
+	return name + "=untouched"
+}
